@@ -126,8 +126,10 @@ def unary (op : String) (a : NT) : Option NT :=
   else none
 
 /-- `inputs` of a binary result: lhs.inputs if both are equal, else `align_tensors` (lhs first). -/
-def binInputs (a b : NT) : List (Name × Nat) :=
-  if a.inputs == b.inputs then a.inputs else unionInputs a.inputs b.inputs
+def unionIns (a b : List (Name × Nat)) : List (Name × Nat) :=
+  if a == b then a else unionInputs a b
+
+def binInputs (a b : NT) : List (Name × Nat) := unionIns a.inputs b.inputs
 
 /-- eager_binary_tensor_tensor: inputs = lhs.inputs if equal, else align_tensors (union, lhs first);
     the lower-rank event shape gets ones inserted after the batch axes, then numpy broadcasts. -/
@@ -345,7 +347,7 @@ def tyUnary (op : Op) (a : Ty) : Option Ty :=
   if pointwiseUn.contains op.name then some a else none
 
 def tyBinary (op : Op) (a b : Ty) : Option Ty :=
-  let u := if a.1 == b.1 then a.1 else unionInputs a.1 b.1
+  let u := unionIns a.1 b.1
   if op.name != "getitem" && pointwiseBin.contains op.name && SubDict a.1 u && SubDict b.1 u then
     (broadcastShapes a.2 b.2).map fun sh => (u, sh)
   else none
